@@ -208,6 +208,8 @@ def main():
     src_changed = fingerprint.changed_for(prop, _REPO)
     if src_changed and ctx.escalate == 1 and os.environ.get("PF_NO_FINGERPRINT") != "1":
         ctx.escalate = 4 if tier == "quick" else 2
+    if os.environ.get("PF_ESCALATE"):   # testing aid: the escalated budget on an unchanged tree (false-alarm sweeps)
+        ctx.escalate = max(ctx.escalate, int(os.environ["PF_ESCALATE"]))
     ctx.replay = json.load(open(replay)) if replay else None
     import signal
     from common import Hang
